@@ -829,4 +829,17 @@ theorem pw_stampLink {R : FLink F → FLink F → Prop} (hr : ∀ l, R l l)
   · exact hs a _ _ _ _
   · exact hr a
 
+/-! ## `sync_conn_timeout` (`Ev.syncTimeout`) -/
+
+/-- A relation that holds between a link and the same link with a rewritten timeout copy holds position-wise
+across a `syncTimeout` event. -/
+theorem pw_syncTimeout {R : FLink F → FLink F → Prop} (T : Nat)
+    (hs : ∀ l : FLink F, R l { l with connTimeoutMs := T }) (ls : List (FLink F)) :
+    PW R ls (ls.map fun l => { l with connTimeoutMs := T }) := by
+  refine ⟨(List.length_map _).symm, fun j a b ha hb => ?_⟩
+  rw [List.getElem?_map, ha] at hb
+  simp only [Option.map_some, Option.some.injEq] at hb
+  subst hb
+  exact hs a
+
 end Srtla.Uplink
